@@ -32,7 +32,10 @@ from cryptography import x509  # noqa: E402
 from nauyaca.client.session import GeminiClient  # noqa: E402
 from nauyaca.security.tofu import CertificateChangedError  # noqa: E402
 
+import sqlite3  # noqa: E402
 import ssl as _ssl  # noqa: E402
+
+from vf import sqlfault  # noqa: E402
 
 FLAGS = ["PinRespected", "ChangedFails", "FirstUsePins", "FirstContactPins", "FailureKeepsPins", "Isolation",
          "UnreadableRefused", "NothingToUnverified"]
@@ -40,7 +43,9 @@ OWN = {"C03": set(FLAGS) - {"NothingToUnverified"} | {"ErrorNamesBoth", "NoConte
        "C11": {"NothingToUnverified"},
        "C16": {"PinRespected", "ChangedFails", "UnreadableRefused"}}
 _CTX = None
-DER = {"c1": make_cert("ec", "srv-one")[2], "c2": make_cert("rsa", "srv-two")[2], "unreadable": b"\x30\x03\x01\x01\x01"}
+# c1 and c2 are look-alikes: same subject / issuer name and the same serial number, different keys (EC and RSA)
+DER = {"c1": make_cert("ec", "capsule.example", serial=20250101, tag="one")[2],
+       "c2": make_cert("rsa", "capsule.example", serial=20250101, tag="two")[2], "unreadable": b"\x30\x03\x01\x01\x01"}
 FP = {k: "sha256:" + hashlib.sha256(v).hexdigest() for k, v in DER.items()}
 FP_INV = {v: k for k, v in FP.items()}
 
@@ -66,16 +71,25 @@ class World:
         self.dir = tempfile.mkdtemp(prefix="vf-tofu-", dir="/dev/shm" if os.path.isdir("/dev/shm") else None)
         self.client = GeminiClient(timeout=30.0, trust_on_first_use=tofu_on, ssl_context=_CTX,
                                    tofu_db_path=os.path.join(self.dir, "tofu.db") if tofu_on else None)
+        self.db0 = self.client.tofu_db   # the store object the client was created with (the driver's handle for store operations)
         self.redirect = {}            # hp -> hp for the current call
         self.drop = False             # peers drop the connection instead of answering (current call)
         self.received = {}            # hp -> bytes received during the current call
         self.conn_bytes = []          # [hp, bytes] per connection of the current call, in order
         self.rotate_after_first = None   # (hp, cert): the world changes hp's certificate once the first connection has answered
         self.connections = []
+        self.race = None              # (hp, cert): another handle of the same store pins hp while the connection is being made
         world = self
 
         async def create_connection(factory, host=None, port=None, ssl=None, server_hostname=None, **kw):
             hp = "%s:%d" % (host, port)
+            if world.race is not None and world.race[0] == hp:
+                # TCP connect + TLS handshake take time: meanwhile somebody else pins this host in the same store
+                from nauyaca.security.tofu import TOFUDatabase
+                other = TOFUDatabase(os.path.join(world.dir, "tofu.db"))
+                other.trust(host, port, x509.load_der_x509_certificate(DER[world.race[1]]))
+                world.race = None
+                await asyncio.sleep(0)
             proto = factory()
             cert = world.presents.get(hp)
             tr = ScriptedPeer(world, hp, proto, DER[cert] if cert else None)
@@ -88,9 +102,9 @@ class World:
         self.loop.create_connection = create_connection
 
     def pins(self):
-        if self.client.tofu_db is None:
+        if self.db0 is None:
             return {h: "none" for h in self.hps}
-        rows = {"%s:%s" % (r["hostname"], r["port"]): r["fingerprint"] for r in self.client.tofu_db.list_hosts()}
+        rows = {"%s:%s" % (r["hostname"], r["port"]): r["fingerprint"] for r in self.db0.list_hosts()}
         out = {}
         for h in self.hps:
             fp = rows.pop(h, None)
@@ -128,6 +142,8 @@ class World:
                 res["old"], res["new"] = e.old_fingerprint, e.new_fingerprint
             elif isinstance(e, ConnectionError) and "Could not read the certificate" in str(e):
                 res["err"] = "unreadable"
+            elif isinstance(e, sqlite3.Error):
+                res["err"] = "store"
             else:
                 res["err"] = "other:%s:%s" % (type(e).__name__, str(e)[:80])
         return res
@@ -136,15 +152,23 @@ class World:
         """act = tuple from the specification's `act` variable.  Returns observation dict."""
         kind = act[0]
         res = None
-        db = self.client.tofu_db
-        if kind in ("Call", "CallDropped"):
+        db = self.db0
+        if kind in ("Call", "CallDropped", "CallRacing", "CallStoreFault"):
             self.drop = kind == "CallDropped"
             ep, h = act[1], act[2]
             host, port = split_hp(h)
-            if ep == "get":
-                res = self.call(self.client.get("gemini://%s:%d/page?q=SECRETQUERY" % (host, port)))
-            else:
-                res = self.call(self.client.upload("gemini://%s:%d/up.gmi" % (host, port), b"SECRETCONTENT", token="SECRETTOKEN"))
+            if kind == "CallRacing":
+                self.race = (h, act[3])
+            if kind == "CallStoreFault":
+                sqlfault.arm(act[3])
+            try:
+                if ep == "get":
+                    res = self.call(self.client.get("gemini://%s:%d/page?q=SECRETQUERY" % (host, port)))
+                else:
+                    res = self.call(self.client.upload("gemini://%s:%d/up.gmi" % (host, port), b"SECRETCONTENT", token="SECRETTOKEN"))
+            finally:
+                sqlfault.disarm()
+                self.race = None
             res["h"] = h
             self.drop = False
             if kind == "CallDropped" and not res["ok"] and res["err"].startswith("other:Connection"):
@@ -158,6 +182,11 @@ class World:
             self.redirect = {}
             self.rotate_after_first = None
             res["h"] = self.connections[-1] if self.connections else h1
+        elif kind == "ContextCycle":
+            async def cycle():
+                async with self.client:
+                    pass
+            self.loop.run_coro(cycle())
         elif kind == "Rotate":
             self.presents[act[1]] = act[2]
         elif kind == "Trust":
@@ -279,14 +308,15 @@ def compare(obs, st, pid_own):
                         bad.add("UnreadableRefused")
                     else:
                         bad.add("ChangedFails")
-                if shown != "unreadable" and before[h] not in ("none", shown):
+                store_fault = st["act"][0] == "CallStoreFault" and not res["ok"] and res["err"] == "store"
+                if shown != "unreadable" and before[h] not in ("none", shown) and not store_fault:
                     if res["ok"] or res["err"] != "changed":
                         bad.add("ChangedFails")
                     elif not (res.get("old") == FP[before[h]] and res.get("new") == FP[shown]
                               and FP[before[h]] in res["msg"] and FP[shown] in res["msg"]):
                         bad.add("ErrorNamesBoth")
                         detail.append("error message/fields do not name both fingerprints: %r" % res["msg"][:200])
-                if not res["ok"] and res["err"] in ("changed", "unreadable"):
+                if not res["ok"] and res["err"] in ("changed", "unreadable", "store"):
                     if obs["pins"] != {k: before[k] for k in before}:
                         bad.add("FailureKeepsPins")
                     if res["content"] is not None:
@@ -319,6 +349,8 @@ def run_history(init_state, acts, states, rep, own, label):
                 raise tlc.TLCError("driver failure on %s: %r" % (act, e))
             n += 1
             mismatch, bad, detail = compare(obs, states[k], own)
+            if act[0] == "CallStoreFault" and mismatch and not bad:
+                break            # the real call took the specification's other branch for this fault (both are Tofu steps; TofuTrace decides exactly)
             if mismatch or bad:
                 mine = sorted(bad & own)
                 desc = "history %s (presents=%s tofu=%s) step %d %s: %s" % (
@@ -352,15 +384,21 @@ def random_history_traces(rep, rnd, count, own):
         try:
             for _ in range(rnd.randint(8, 40)):
                 pins = w.pins()
-                kinds = ["Call", "Call", "Call", "CallDropped", "Redirected", "RedirectRotate", "Rotate"]
+                kinds = ["Call", "Call", "Call", "CallDropped", "Redirected", "RedirectRotate", "Rotate", "ContextCycle", "CallStoreFault"]
                 if tofu_on:
-                    kinds += ["Trust", "Clear", "ImportMerge", "ImportUpdate", "ImportReplace"]
+                    kinds += ["Trust", "Clear", "ImportMerge", "ImportUpdate", "ImportReplace", "CallRacing", "CallStoreFault"]
                     if any(v != "none" for v in pins.values()):
                         kinds.append("Revoke")
                 k = rnd.choice(kinds)
                 h = rnd.choice(HPS)
                 if k in ("Call", "CallDropped"):
                     act = (k, rnd.choice(["get", "upload"]), h)
+                elif k == "CallRacing":
+                    act = (k, rnd.choice(["get", "upload"]), h, rnd.choice(certs))
+                elif k == "CallStoreFault":
+                    act = (k, rnd.choice(["get", "upload"]), h, rnd.randint(0, 3))
+                elif k == "ContextCycle":
+                    act = (k,)
                 elif k == "Redirected":
                     h2 = rnd.choice([x for x in HPS if x != h])
                     act = (k, h, h2)
@@ -420,7 +458,7 @@ def random_history_traces(rep, rnd, count, own):
         mine = sorted(bad & own)
         if mine:
             rep.violation({"formula": mine[0], "trace": True}, "%s falsified on a recorded history: %s" % (mine, desc), t)
-        elif step is not None and step["act"][0] in ("Call", "CallDropped", "Redirected", "RedirectRotate"):
+        elif step is not None and step["act"][0] in ("Call", "CallDropped", "Redirected", "RedirectRotate", "CallRacing", "CallStoreFault"):
             # the specification cannot explain what the call returned / pinned: judge with the formula the step belongs to
             formula = "PinRespected" if step["ok"] else "ChangedFails"
             if formula in own or pid_generic(own):
@@ -485,7 +523,7 @@ def main(pid="C03", rep=None, finish=True):
         rep.tlc("Tofu(design)", r)
         if not r.ok:
             raise tlc.TLCError("design variant of Tofu violates %s" % r.violated)
-        for a in ("Call", "CallDropped", "Redirected", "RedirectRotate", "ImportUpdate", "Rotate", "Trust", "Revoke", "Clear", "ImportMerge", "ImportReplace"):
+        for a in ("Call", "CallDropped", "CallRacing", "CallStoreFault", "ContextCycle", "Redirected", "RedirectRotate", "ImportUpdate", "Rotate", "Trust", "Revoke", "Clear", "ImportMerge", "ImportReplace"):
             if r.coverage.get(a, (0, 0))[1] == 0:
                 raise tlc.TLCError("vacuity: action %s never taken" % a)
         dev = tlc.expect_caught("Tofu", "MC_Tofu.cfg", {"DevUnreadableSkipsCheck": ["PinRespected", "UnreadableRefused"],
